@@ -274,3 +274,214 @@ func sortFuncs(fs []*ssa.Function) {
 		}
 	}
 }
+
+// FeasibleUnder computes which CFG edges of fn can be taken when some atomic
+// conditions have a known truth value (atom returns 1 = true, 0 = false,
+// -1 = unknown). Negations, boolean constants and phis of booleans (evaluated
+// over the predecessors that are still reachable) are folded, so that
+// `has := a != nil || b != nil; if !has {...}` is pruned like the plain
+// short-circuit form. The result is an edge filter.
+func FeasibleUnder(fn *ssa.Function, atom func(cond ssa.Value) int) EdgeFilter {
+	reach := map[*ssa.BasicBlock]bool{}
+	for _, b := range fn.Blocks {
+		reach[b] = true
+	}
+	var eval func(v ssa.Value, d int) int
+	edgeOK := func(b *ssa.BasicBlock, i int) bool {
+		if !reach[b] {
+			return false
+		}
+		if ifi, ok := b.Instrs[len(b.Instrs)-1].(*ssa.If); ok {
+			switch eval(ifi.Cond, 0) {
+			case 1:
+				return i == 0
+			case 0:
+				return i == 1
+			}
+		}
+		return true
+	}
+	eval = func(v ssa.Value, d int) int {
+		if d > 8 {
+			return -1
+		}
+		if r := atom(v); r >= 0 {
+			return r
+		}
+		switch x := v.(type) {
+		case *ssa.Const:
+			if x.Value != nil {
+				switch x.Value.String() {
+				case "true":
+					return 1
+				case "false":
+					return 0
+				}
+			}
+		case *ssa.UnOp:
+			if x.Op.String() == "!" {
+				if r := eval(x.X, d+1); r >= 0 {
+					return 1 - r
+				}
+			}
+		case *ssa.Phi:
+			res := -2
+			for i, e := range x.Edges {
+				pred := x.Block().Preds[i]
+				si := -1
+				for k, sc := range pred.Succs {
+					if sc == x.Block() {
+						si = k
+					}
+				}
+				if si < 0 || !edgeOK(pred, si) {
+					continue
+				}
+				r := eval(e, d+1)
+				if r < 0 {
+					return -1
+				}
+				if res == -2 {
+					res = r
+				} else if res != r {
+					return -1
+				}
+			}
+			if res >= 0 {
+				return res
+			}
+		}
+		return -1
+	}
+	for iter := 0; iter < 6; iter++ {
+		next := map[*ssa.BasicBlock]bool{}
+		var walk func(b *ssa.BasicBlock)
+		walk = func(b *ssa.BasicBlock) {
+			if next[b] {
+				return
+			}
+			next[b] = true
+			for i, sc := range b.Succs {
+				if edgeOK(b, i) {
+					walk(sc)
+				}
+			}
+		}
+		// reach must hold the previous iteration's set while walking
+		walk(fn.Blocks[0])
+		same := len(next) == len(reach)
+		if same {
+			for b := range reach {
+				if reach[b] && !next[b] {
+					same = false
+				}
+			}
+		}
+		cnt := 0
+		for _, v := range reach {
+			if v {
+				cnt++
+			}
+		}
+		if cnt == len(next) {
+			same = true
+			for b := range next {
+				if !reach[b] {
+					same = false
+				}
+			}
+		} else {
+			same = false
+		}
+		for b := range reach {
+			reach[b] = next[b]
+		}
+		if same {
+			break
+		}
+	}
+	return func(b *ssa.BasicBlock, i int) bool { return edgeOK(b, i) }
+}
+
+// PredEdges returns the edges of fn on which the predicate recognised by match
+// (same contract as CondEdges) has the truth value want. Besides the direct
+// tests it follows boolean helpers of the same package: for
+// `if c.reusable(res) {...}` the true edge counts when every return of the
+// helper that can yield true lies behind such an edge inside the helper, or
+// returns the matching comparison itself.
+func PredEdges(fn *ssa.Function, want bool, match func(cond ssa.Value) (polarity bool, ok bool)) []Edge {
+	return predEdges(fn, want, match, 0)
+}
+
+func predEdges(fn *ssa.Function, want bool, match func(cond ssa.Value) (bool, bool), depth int) []Edge {
+	es := CondEdges(fn, want, match)
+	if depth > 1 {
+		return es
+	}
+	for _, b := range fn.Blocks {
+		if len(b.Instrs) == 0 {
+			continue
+		}
+		ifi, ok := b.Instrs[len(b.Instrs)-1].(*ssa.If)
+		if !ok {
+			continue
+		}
+		cond, pol := StripNot(ifi.Cond)
+		call, ok := cond.(*ssa.Call)
+		if !ok {
+			continue
+		}
+		g := StaticFn(call)
+		if g == nil || g.Blocks == nil || g.Pkg == nil || fn.Pkg == nil || g.Pkg != fn.Pkg || g.Signature.Results().Len() != 1 {
+			continue
+		}
+		if bt, ok := g.Signature.Results().At(0).Type().Underlying().(*types.Basic); !ok || bt.Kind() != types.Bool {
+			continue
+		}
+		for _, resWant := range []bool{true, false} {
+			if helperImplies(g, resWant, want, match, depth+1) {
+				succ := 1
+				if resWant == pol {
+					succ = 0
+				}
+				es = append(es, Edge{b, succ})
+			}
+		}
+	}
+	return es
+}
+
+func helperImplies(g *ssa.Function, resWant, want bool, match func(cond ssa.Value) (bool, bool), depth int) bool {
+	inner := predEdges(g, want, match, depth)
+	can := false
+	for _, b := range g.Blocks {
+		if len(b.Instrs) == 0 {
+			continue
+		}
+		ret, ok := b.Instrs[len(b.Instrs)-1].(*ssa.Return)
+		if !ok || len(ret.Results) != 1 {
+			continue
+		}
+		v := ret.Results[0]
+		if k, isC := v.(*ssa.Const); isC && k.Value != nil {
+			if (k.Value.String() == "true") != resWant {
+				continue
+			}
+		} else if pol, ok := match(v); ok {
+			// the result is the comparison itself: result == resWant fixes the predicate
+			pred := pol
+			if !resWant {
+				pred = !pol
+			}
+			if pred == want {
+				can = true
+				continue
+			}
+		}
+		can = true
+		if len(inner) == 0 || !OnlyViaEdges(g, ret, inner) {
+			return false
+		}
+	}
+	return can
+}
